@@ -210,3 +210,51 @@ def check(cx):
                    "%s stores a relation without first asking whether *any* relation of that name exists (no check, or a check "
                    "filtered by kind): creating an index named like a table re-points the name at the index and the table "
                    "becomes unreachable" % name)
+
+    # ---- C15.8 the inverse of a NOT NULL change restores the recorded previous state -----------------------------------
+    r8 = cx.rule("C15.8", "TAB: AlterColumnActionInstr::inverse maps (SET NOT NULL, was nullable) -> DROP NOT NULL, (SET NOT NULL, was "
+                 "already non-null) -> SET NOT NULL, (DROP NOT NULL, was non-null) -> SET NOT NULL, (DROP NOT NULL, was already "
+                 "nullable) -> DROP NOT NULL: undoing a redundant ALTER changes nothing (the logged inverse is what recovery executes)", floor=4)
+    fi = cx.guard(r8, "inverse", p.fn, "runtime::ddl::AlterColumnActionInstr::inverse")
+    if fi:
+        sws = [x for x in enum_switches(p, fi) if x[1] == "runtime::ddl::AlterColumnActionInstr"]
+        WANT8 = {("SetNotNull", 1): "DropNotNull", ("SetNotNull", 0): "SetNotNull", ("DropNotNull", 1): "SetNotNull", ("DropNotNull", 0): "DropNotNull"}
+        if not sws:
+            cx.bad(r8, "no-match", fi.where(), "inverse does not match on the action")
+        else:
+            bi, adt, m, oth, _ = max(sws, key=lambda x: len(x[2]))
+            for var in ("SetNotNull", "DropNotNull"):
+                if var not in m:
+                    cx.bad(r8, var + ":arm-missing", fi.where(), "no inverse arm for %s" % var)
+                    continue
+                reg = dominated(fi, m[var])
+                got = {}
+                flag_sw = None
+                for b_ in sorted(reg):
+                    t = fi.blocks[b_]["term"]
+                    if t["t"] == "switch" and t.get("ty") == "bool":
+                        l = op_local(t["o"])
+                        cl = fi.dep_closure(l) | {l}
+                        reads_flag = any(st["dst"][0] in cl and st["rv"].get("r") == "ref" and any(isinstance(pe, str) and pe.startswith(".was_") for pe in st["rv"]["p"][1:])
+                                         for b in fi.blocks for st in b["stmts"])
+                        if reads_flag:
+                            flag_sw = (b_, t)
+                            break
+                if flag_sw is not None:
+                    b_, t = flag_sw
+                    zero = [tg for v, tg in t["targets"] if v == 0]
+                    for val, tgt in ((0, zero[0] if zero else None), (1, t["otherwise"])):
+                        if tgt is None:
+                            continue
+                        vs = {st["rv"]["variant"] for x in fi.reachable(tgt, blocked={b_}) if x in reg for st in fi.blocks[x]["stmts"]
+                              if st["dst"] == [0] and st["rv"].get("r") == "agg" and st["rv"].get("adt") == adt}
+                        got[val] = vs
+                else:
+                    vs = {st["rv"]["variant"] for x in reg for st in fi.blocks[x]["stmts"] if st["dst"] == [0] and st["rv"].get("r") == "agg" and st["rv"].get("adt") == adt}
+                    got = {0: vs, 1: vs}
+                for val in (1, 0):
+                    want = WANT8[(var, val)]
+                    cx.verdict(got.get(val) == {want}, r8, "%s:previous-state=%d" % (var, val), fi.where(), "inverse is %s" % want,
+                               "the inverse of %s when the recorded previous state flag is %d is %s, it must be %s: undoing a redundant "
+                               "ALTER COLUMN (e.g. SET NOT NULL on a column that already was NOT NULL) removes the constraint" % (
+                                   var, val, sorted(got.get(val) or []), want))
